@@ -272,6 +272,15 @@ def gen_sites(g, v):
     return [s_ for s_ in U.rec_sites(v) if s_.rec.fn in g.helpers]
 
 
+def floor(r, n):
+    """exact instance count of today's tree; enforced when the rule is otherwise clean (a rule that already
+    reports a violation keeps exit status 1 instead of degrading to an analysis error)"""
+    if r.findings:
+        r.floor = n
+    else:
+        r.require_floor(n)
+
+
 def the_helper(g):
     if len(g.helpers) != 1:
         raise AnalysisError(f"{g.name}: expected exactly one recursive traversal helper, found {sorted(g.helpers)}")
@@ -471,7 +480,7 @@ def rule_traversal(repo):
             _check_list_case(r, m, hv, spec)
             _check_struct_case(r, m, hv, spec)
     r.evaluations = A.steps()
-    r.require_floor(32)
+    floor(r, 36)
     return r
 
 
@@ -538,6 +547,8 @@ def _check_list_case(r, m, h, spec):
     if all(not s.loops for s in sites) and emits_loop_header(h):
         r.ok(m, fn, 'list case: emits a `for` loop over the elements instead of unrolling', nontrivial=False,
              note="element coverage of the EMITTED loop nest is decided on concrete shapes by R-C06-grid")
+        r.ok(m, fn, f"list case: recursion {show(rec)} inside the emitted loop", nontrivial=False,
+             note="index expression of the emitted access path is decided by R-C06-grid")
         return
     if any(len(s.loops) != 1 for s in sites) or len({s.loops for s in sites}) != 1:
         r.bad(m, fn, 'list case: element loop', "the recursion is not inside exactly one loop over the list elements",
@@ -949,7 +960,7 @@ def rule_leaf(repo):
                 r.ok(m, gname, cons)
     _from_bits_leaf(r, A)
     r.evaluations = A.steps()
-    r.require_floor(20)
+    floor(r, 23)
     return r
 
 
@@ -1350,7 +1361,7 @@ def rule_width(repo):
                 else:
                     r.ok(m, h.where, cons + f": {show(t)}")
     r.evaluations = A.steps()
-    r.require_floor(12)
+    floor(r, 13)
     return r
 
 
@@ -1460,7 +1471,7 @@ def rule_mirror(repo):
                 pr.append("to_bits and from_bits are generated from different field tables")
     (r.bad(m, '_process_class', cons, '; '.join(pr), pc.lineno) if pr else r.ok(m, '_process_class', cons))
     r.evaluations = A.steps()
-    r.require_floor(5)
+    floor(r, 5)
     return r
 
 
@@ -1609,6 +1620,63 @@ def tuple_holes(node, hl):
     return None
 
 
+def reads_fields_of(node, who, hl):
+    """the expression touches an attribute of `who` other than its class (directly or through a field-tuple hole)"""
+    for n in ast.walk(node):
+        if isinstance(n, ast.Attribute) and isinstance(n.value, ast.Name) and n.value.id == who and n.attr != '__class__':
+            return True
+        if isinstance(n, ast.Name):
+            v = hl.value(n.id)
+            if v is not None:
+                ft = field_tuple(v)
+                if not isinstance(ft, str) and ft[0] == who:
+                    return True
+    return False
+
+
+def eq_body_shape(fd, names):
+    """(expression whose truth is the result on the same-class path, class guard already established by an
+    earlier statement?) for the emitted __eq__ body:
+       return <expr>
+       if <classes differ>: return False / NotImplemented ; return <expr>
+       if <classes equal>:  return <expr> ; [else:] return False / NotImplemented"""
+    a0, a1 = names
+    body = [st for st in fd.body if not (isinstance(st, ast.Expr) and isinstance(st.value, ast.Constant))]
+
+    def negative(st):
+        return isinstance(st, ast.Return) and ((isinstance(st.value, ast.Constant) and st.value.value is False) or
+                                               norm(st.value) == 'NotImplemented')
+
+    def same_class(test):
+        res = []
+        for same in (True, False):
+            def leaf(e, same=same):
+                w = class_of(e)
+                if w == a0:
+                    return 'A'
+                if w == a1:
+                    return 'A' if same else 'B'
+                return NotImplemented
+            try:
+                res.append(bool(Evaluator({}, leaf=leaf).ev(test)))
+            except AnalysisError:
+                return None
+        return {(True, False): 'same', (False, True): 'differ'}.get(tuple(res))
+    if len(body) == 1 and isinstance(body[0], ast.Return) and body[0].value is not None:
+        return body[0].value, False
+    if len(body) in (1, 2) and isinstance(body[0], ast.If) and len(body[0].body) == 1:
+        st = body[0]
+        k = same_class(st.test)
+        rest = st.orelse if st.orelse else body[1:]
+        if len(rest) != 1 or (st.orelse and len(body) != 1):
+            return None
+        if k == 'differ' and negative(st.body[0]) and isinstance(rest[0], ast.Return) and rest[0].value is not None:
+            return rest[0].value, True
+        if k == 'same' and isinstance(st.body[0], ast.Return) and st.body[0].value is not None and negative(rest[0]):
+            return st.body[0].value, True
+    return None
+
+
 def rule_eqhash(repo):
     r = RuleResult('R-C06-eqhash', "__eq__ compares, and __hash__ hashes, the complete field tuple in declaration order "
                                    "(equal iff the packed values are equal); __eq__ additionally requires class identity")
@@ -1638,10 +1706,12 @@ def rule_eqhash(repo):
             rets = [n for n in ast.walk(fd) if isinstance(n, ast.Return)]
             if fname == '__eq__':
                 cons = "generated __eq__: class identity and field tuples"
-                if len(names) != 2 or len(rets) != 1 or len(fd.body) != 1:
-                    r.bad(m, where, cons, f"`{src}` is not a single `return <class identity> and <tuple> == <tuple>`", g.fdef.lineno)
+                shape = eq_body_shape(fd, names) if len(names) == 2 else None
+                if shape is None:
+                    r.bad(m, where, cons, f"`{src}` is neither `return <class identity> and <tuple> == <tuple>` nor a class-guard "
+                          f"early return followed by the tuple comparison", g.fdef.lineno)
                     continue
-                e = rets[0].value
+                e, guarded_first = shape
                 conj = [c_ for c_, pol_ in cond_atoms(e)] if all(pol_ for _, pol_ in cond_atoms(e)) else [e]
                 ident = [c for c in conj if isinstance(c, ast.Compare) and len(c.ops) == 1 and
                          isinstance(c.ops[0], (ast.Is, ast.Eq)) and
@@ -1649,10 +1719,18 @@ def rule_eqhash(repo):
                 tups = [c for c in conj if isinstance(c, ast.Compare) and len(c.ops) == 1 and isinstance(c.ops[0], ast.Eq)
                         and tuple_holes(c.left, hl) is not None and tuple_holes(c.comparators[0], hl) is not None]
                 pr = []
-                if not ident:
+                if not ident and not guarded_first:
                     pr.append("no conjunct requires `other.__class__ is self.__class__`: values of two different struct types "
                               "with equal field tuples compare equal")
-                if len(ident) + len(tups) != len(conj):
+                if ident and not guarded_first:
+                    # evaluation order of `and`: the class test must come before anything that reads a field of `other`
+                    first_ident = min(i_ for i_, c_ in enumerate(conj) if any(c_ is x_ for x_ in ident))
+                    early = [c_ for c_ in conj[:first_ident] if reads_fields_of(c_, names[1], hl)]
+                    if early:
+                        pr.append(f"`{norm(early[0])[:60]}` is evaluated before the class test: comparing with a value of another "
+                                  f"struct type (other field names), with the packed Bits, an int or None raises AttributeError "
+                                  f"instead of giving False -- the class guard must short-circuit first")
+                if len([c_ for c_ in conj if any(c_ is x_ for x_ in ident) or any(c_ is x_ for x_ in tups)]) != len(conj):
                     pr.append(f"unexpected conjunct in `{norm(e)}`")
                 if len(tups) != 1:
                     pr.append("no comparison of the two field tuples")
@@ -1711,8 +1789,7 @@ def rule_eqhash(repo):
             r.bad(m, '_mk_hash_fn', cons + f": {spaces['eq']} / {spaces['hash']}",
                   "__eq__ and __hash__ are computed from different field sets", A.gen('_mk_hash_fn').fdef.lineno)
     r.evaluations = A.steps()
-    if not r.findings:
-        r.require_floor(4)
+    floor(r, 4)
     return r
 
 
@@ -1815,8 +1892,7 @@ def rule_init(repo):
         else:
             r.ok(m, g.name, cons + f": {show(bsegs[0].segs[0].v)}")
     r.evaluations = A.steps()
-    if not r.findings:
-        r.require_floor(6)
+    floor(r, 6)
     return r
 
 
@@ -2201,7 +2277,7 @@ def rule_wiring(repo):
                 pr.append("the class passed to bitstruct is not created from the namespace holding the annotations")
     (r.bad(m, 'mk_bitstruct', cons, '; '.join(pr), mk.lineno) if pr else r.ok(m, 'mk_bitstruct', cons))
     r.evaluations = A.steps()
-    r.require_floor(14)
+    floor(r, 15)
     return r
 
 
@@ -2369,7 +2445,7 @@ def _rule_admit(repo, thorough):
             if not before:
                 pr.append("the guard does not run before the field is stored / before the methods are generated")
     (r.bad(m, '_process_class', cons, '; '.join(pr), pc.lineno) if pr else r.ok(m, '_process_class', cons))
-    r.require_floor(4 if thorough else 7)
+    floor(r, 6 if thorough else 7)
     return r
 
 
@@ -2540,7 +2616,7 @@ def rule_grid(repo):
                     r.bad(m, gname, cons, f"for fields (x: Bits3, f: {shape!r}, z: Bits1): " + msg, g.fdef.lineno)
                 else:
                     r.ok(m, gname, cons)
-    r.require_floor(75)
+    floor(r, 104)
     return r
 
 
@@ -2766,7 +2842,7 @@ def rule_fresh(repo):
     else:
         r.observations.append("rules.c05.rule_value_semantics not available: freshness of x[lo:hi] / clone() is assumed")
     r.evaluations = A.steps()
-    r.require_floor(7)
+    floor(r, 8)
     return out
 
 
@@ -2853,7 +2929,7 @@ def rule_concat(repo):
         if w.loop != val.loop if isinstance(w, Fold) else False:
             pr.append("width and value are accumulated in different loops")
     (r.bad(m, 'concat', cons, '; '.join(pr), f.lineno) if pr else r.ok(m, 'concat', cons))
-    r.require_floor(3)
+    floor(r, 3)
     return r
 
 
@@ -3025,6 +3101,10 @@ MUTANTS = [
     _m('from-bits-no-width-assert', '''"assert cls.nbits == other.nbits, f'LHS bitstruct {cls.nbits}-bit <> RHS other {other.nbits}-bit'",''',
        '''"pass",''', 'R-C06-leaf'),
     # --- eq / hash
+    _m('eq-class-guard-evaluated-last', "[ f'return (other.__class__ is self.__class__) and {self_tuple} == {other_tuple}' ]",
+       "[ f'return {self_tuple} == {other_tuple} and (other.__class__ is self.__class__)' ]", 'R-C06-eqhash'),
+    _m('eq-early-return-inverted', "[ f'return (other.__class__ is self.__class__) and {self_tuple} == {other_tuple}' ]",
+       "[ 'if other.__class__ is self.__class__:', '  return False', f'return {self_tuple} == {other_tuple}' ]", 'R-C06-eqhash'),
     _m('eq-no-class-identity', "[ f'return (other.__class__ is self.__class__) and {self_tuple} == {other_tuple}' ]",
        "[ f'return {self_tuple} == {other_tuple}' ]", 'R-C06-eqhash'),
     _m('eq-compares-self-with-self', "other_tuple = _mk_tuple_str( 'other', fields )", "other_tuple = _mk_tuple_str( 'self', fields )",
@@ -3200,7 +3280,13 @@ EQUIV = [
     _m('to-bits-leaf-inline', """      end_bit = start_bit + type_.nbits
       return end_bit, [ f"self.{prefix}" ]""", """      return type_.nbits + start_bit, [ f"self.{prefix}" ]"""),
     _m('eq-conjuncts-reordered', "[ f'return (other.__class__ is self.__class__) and {self_tuple} == {other_tuple}' ]",
-       "[ f'return {other_tuple} == {self_tuple} and self.__class__ is other.__class__' ]"),
+       "[ f'return self.__class__ is other.__class__ and {other_tuple} == {self_tuple}' ]"),
+    _m('eq-guard-as-early-return', "[ f'return (other.__class__ is self.__class__) and {self_tuple} == {other_tuple}' ]",
+       "[ 'if other.__class__ is not self.__class__:', '  return False', f'return {self_tuple} == {other_tuple}' ]"),
+    _m('eq-guard-by-type-call', "[ f'return (other.__class__ is self.__class__) and {self_tuple} == {other_tuple}' ]",
+       "[ f'return type(other) is type(self) and {self_tuple} == {other_tuple}' ]"),
+    _m('eq-guarded-if-else', "[ f'return (other.__class__ is self.__class__) and {self_tuple} == {other_tuple}' ]",
+       "[ 'if type(other) is type(self):', f'  return {self_tuple} == {other_tuple}', 'return NotImplemented' ]"),
     _m('imatmul-loop-over-keys', """  for name, type_ in fields.items():
     imatmul_strs.extend( _gen_list_imatmul_strs( type_, name ) )""", """  for fname in fields:
     imatmul_strs.extend( _gen_list_imatmul_strs( fields[fname], fname ) )"""),
